@@ -15,7 +15,7 @@ LABELS = ('xadd', 'xrange')
 ks.family_check(
     "C18", tier,
     b1_instances=[('MC_Stream', 'MC_Stream.cfg')] if tier == "quick" else [('MC_Stream', 'MC_Stream_thorough.cfg')],
-    b2_families=['stream'],
+    b2_families=['stream', 'streamdeep'],
     level_text="", assumptions=['reference semantics = Redis command reference as transcribed in spec/KsStream.tla', 'auto IDs (*) are checked relationally in B2 (greater than the last ID), explicit and ms-* IDs exactly', "'~' trimming may keep any suffix between the exact trim and no trim"],
     b2_progs=400 if tier == "quick" else 6000, extra=concurrent_adds,
     label_filter=lambda b: b.split(".")[0] in LABELS)
